@@ -681,7 +681,16 @@ def signature_parser(run, F, PV, rid="R5"):
     # facts on every normal exit, with locals (r_len, s_len, temporaries) expanded to what they stand for
     ef = {_strip(t) for t in F.exit_texts(ini, S, PV)}
     rl = f"{b}[3]"
-    for w in (f"len({b}) >= 2", f"{b}[0] in [48, 49]", f"len({b}[2:]) >= {b}[1]", f"{b}[2] == 2", f"len({b}[4:]) >= {b}[3]",
-              f"{b}[4 + {rl}] == 2", f"len({b}[6 + {rl}:]) >= {b}[5 + {rl}]"):
+    required = (f"len({b}) >= 2", f"{b}[0] in [48, 49]", f"len({b}[2:]) >= {b}[1]", f"{b}[2] == 2", f"len({b}[4:]) >= {b}[3]",
+                f"{b}[4 + {rl}] == 2", f"len({b}[6 + {rl}:]) >= {b}[5 + {rl}]")
+    for w in required:
         run.check(rid, _strip(w) in ef, f"DER check `{w}`", key=f"HSM2DongleSignature|check|{w}", where=ini.loc(),
                   message=f"the DER parser no longer requires `{w}`")
+    # closed world: nothing else is demanded of a signature (DER integers are minimal - R or S of 31 bytes and less are genuine; the device's
+    # SUCCESS answer must not be turned into an error by an extra `sanity` condition)
+    allowed = {_strip(w) for w in required} | {_strip(f"len({b}[2:]) >= 2"), _strip(f"len({b}[4 + {rl}:]) >= 2")}
+    locs_ = set(PV.defs(ini, S))
+    extra = sorted(t for t in ef if t not in allowed and not any(re.search(rf"\b{re.escape(nm)}\b", t) for nm in locs_ if nm != b))
+    run.check(rid, not extra, "the DER parser demands nothing beyond well-formedness", key="HSMDongleSignature|extra-conditions", where=ini.loc(),
+              message=f"the DER parser additionally requires {extra[:2]}: a genuine signature the device returned with SUCCESS (e.g. a 31-byte R) is rejected "
+                      "and the client gets an error code instead of the signature")
